@@ -33,7 +33,7 @@ def gen(ctx):
     rng = random.Random(ctx.seed * 6364136223846793005 + 1)
     scen = []
     combos = [("real", "real"), ("real", "ref"), ("ref", "real"), ("real", "real")]
-    n = 70 if quick else 900
+    n = 70 if quick else 3000
     for i in range(n):
         c, s = combos[i % 4]
         siat, ciat = rng.choice([0, 0, 1, 2]), rng.choice([0, 0, 1, 2])
